@@ -373,7 +373,7 @@ def _softsign_like(x):
 
 
 # --------------------------------------------------------------------------- generation ---
-DIMS = [2, 3, 5]
+DIMS = [2, 3, 5, 7]
 
 
 def leaf_catalogue():
@@ -450,6 +450,11 @@ def combinator_catalogue():
             C.append({"op": "Vmap", "mode": mode, "n": 5, "cond_axis": ax,
                       "child": {"op": "AdditiveCondition", "shape": (3,), "cond_shape": (2,)}})
     C.append({"op": "Vmap", "mode": "params", "n": 3, "child": {"op": "Planar", "dim": 2, "negative_slope": 0.2}})
+    for n in (7, 8, 11):
+        C.append({"op": "Vmap", "mode": "params", "n": n, "child": rq})
+        C.append({"op": "Vmap", "mode": "size", "n": n, "child": {"op": "Affine", "shape": (2,), "neg": True}})
+    C.append({"op": "Scan", "n": 9, "child": a3})
+    C.append({"op": "Chain", "args": [a3] * 8 + [{"op": "LeakyTanh", "max_val": 1, "shape": (3,)}]})
     for ax in (0, 1, -1, -2):
         C.append({"op": "Concatenate", "axis": ax, "args": [a23, {"op": "Affine", "shape": (5, 3) if ax in (0, -2) else (2, 5)},
                                                               {"op": "LeakyTanh", "max_val": 1, "shape": (7, 3) if ax in (0, -2) else (2, 7)}]})
